@@ -403,7 +403,8 @@ fn gen_op(r: &mut Rng) -> Value {
     match r.below(13) {
         0..=3 => json!({"k": "arg", "v": gen_val(r)}),
         4..=6 => {
-            let key = if r.chance(65) { r.pick(&["K", "PATH", "A"]).to_string() } else { word(r, 2) };
+            // few keys so that repeats (last write wins) are common; case variants are different keys
+            let key = if r.chance(70) { r.pick(&["K", "PATH", "A", "k", "Path", "a", "K"]).to_string() } else { word(r, 2) };
             json!({"k": "env", "key": key, "v": gen_val(r)})
         }
         7 => json!({"k": "cwd", "v": word(r, 3)}),
